@@ -44,7 +44,7 @@ CHECKS.update({
     ),
     "C04": dict(
         text="Lean 4 theorems: bias parameters (scale = input scale x weight scale per channel, zero point 0, 32/64 bit), fixed output ranges of softmax/logistic/tanh, parameters handed to another runtime tensor are carried unchanged (same-as-input / same-as-output rules), plus C17's scalar laws under IEEE rounding (positive finite scale, zero point in range, symmetric => 0). Materialisation compared bit-exactly with the code; independent oracle re-derives the reference parameters from statistics the check recomputes with its own interpreter run.",
-        note="C04b (QProps/C04b): proved that what materialisation requests for a tensor IS the reference formula applied to that tensor's statistics: runtime tensors of static-range ops from the recorded min/max (act_params_reference), constants from their TRUE per-tensor/per-channel min/max under the granularity configured now, whatever the statistics dictionary holds (weight_params_reference, weight_stats_true_minmax, weight_request_ignores_stats; false before repair D36), all well formed by the C17 laws (tensorQuantParams_wellformed), per-channel only on constants of weight ops on the kernel's dimension, same-as-input / concatenation / fixed-range / bias rules with the operator dispatch checked against the regenerated registry; the lifting of these per-operator statements through the whole generate loop is covered by execution",
+        note="END TO END (QProps/C04c): every tensor of quantizePure's output that carries parameters -- originals, constants, outputs of inserted QUANTIZE ops -- carries (values-equal to) the reference formula on the statistics in force when its producer / reader was materialised (the caller's entry, or what a same-as-input / fixed-range operator wrote back), lent parameters, the fixed range, or quantizeBias of the reader's data and weight parameters (quantized_tensor_params, param_kinds, stats_in_force); well formed or a bias (output_params_wellformed); per-channel only on constants of weight operators on the kernel's dimension or biases; same-scale operators, concatenation, fixed ranges and the bias rule as they appear in the output (same_scale_ops_in_output, concat_inputs_in_output, fixed_range_in_output, bias_in_output). Per operator: C04b (constants use their TRUE min/max whatever the statistics dictionary holds: false before repair D36). Not claimed: positivity of a bias scale in general (the float product of two scales may underflow; excluded for generated scales by the 1e-4 floor, C08d)",
         design="§6 C04",
     ),
     "C05": dict(
@@ -54,7 +54,7 @@ CHECKS.update({
     ),
     "C08": dict(
         text="Lean 4 theorems: (1) over regenerated tables: the model's materialisation dispatch covers every registered (algorithm, op, function); shipped recipes load, are single '.*'/'*' rules and carry policy-accepted configs; (2) TOTALITY of the graph stage (QProps/C08b): for every well-formed model and every request set of the closed shape whose parameters are in the table and which does not mix 'unquantized' with 'quantize in place' on one tensor, instruction generation + performer cannot raise (modify_total, performer_total) and return a well-formed graph (modify_total_wf); each added hypothesis is shown necessary by a kernel-checked counterexample. Rejection-freedom of the whole pipeline is executed: all shipped recipes x generated normal-form models (incl. reshape-to-scalar, bool outputs, unnamed single signatures).",
-        note="PARTIAL at the numeric sites only. C08c: complete inventory of the raise sites of the materialisation stage (generate_error_sites); under Hyp (normal form, complete statistics as delivered by calibrate(), no skip_checks, converter operand shapes) and Unshared every STRUCTURAL site is impossible, so quantizePure returns a well-formed model or stops at a numeric site (zpScale / uniformQuantize / quantizeBias / float16 cast overflowing on the data), which is a real failure (quantize_total_partial, numeric_site_fails); each hypothesis shown necessary by a closed run; for every shipped recipe and operator name resolution selects no-quantize or a registered legal function (shipped_resolution, shipped_coverage). Graph stage total (C08b). Not proved: success of the numeric primitives on finite ordered data (NumericOK is a hypothesis); covered by execution over all shipped recipes x generated models",
+        note="C08c + C08d: complete inventory of the raise sites of the materialisation stage; under Hyp (normal form, complete statistics as delivered by calibrate(), no skip_checks, converter operand shapes), Unshared (no tied constants) and Bounded (constants and statistics within 2^63 with all-ones statistic shapes -- delivered by calibrate() on float32 contents --, biases of the channel count, float16-cast weights within 65504) quantizePure RETURNS a well-formed model (quantize_total, no remaining disjunct); every hypothesis shown necessary by a closed run; for every shipped recipe and operator name resolution selects no-quantize or a registered legal function (shipped_resolution, shipped_coverage); graph stage total (C08b). Limits: stats_bounded_of_calibration covers a fresh calibration of one subgraph; runtime acceptance of the returned model is C01's executed clause",
         design="§6 C08",
     ),
     "C09": dict(
